@@ -189,6 +189,18 @@ Dev_FdTakenAsRedirectTarget(o) ==
   MoreLenient(o) /\ \E k \in DOMAIN o.toks : RedirOp(o.toks[k]) /\ k + 2 <= Len(o.toks) /\ Digits(o.toks[k + 1])
                                                /\ (StartsWith(o.toks[k + 2], <<">">>) \/ StartsWith(o.toks[k + 2], <<"<">>))
 
+\* C12-9: a reserved word that continues or ends the enclosing compound command (then, do, fi, done, elif, else,
+\* esac, }) is accepted right after the redirection of a compound command without a separator in between
+\* (`if case $x in a) ;; esac >>f then b; fi`); for bash and dash the word after a redirection target is an ordinary word.
+ListWord(tok) == tok \in {<<"t", "h", "e", "n">>, <<"d", "o">>, <<"f", "i">>, <<"d", "o", "n", "e">>, <<"e", "l", "i", "f">>,
+                           <<"e", "l", "s", "e">>, <<"e", "s", "a", "c">>, <<"}">>}
+CompoundEnd(tok) == tok \in {<<"e", "s", "a", "c">>, <<"f", "i">>, <<"d", "o", "n", "e">>, <<"}">>, <<")">>, <<"]", "]">>, <<")", ")">>}
+Dev_ReservedAfterRedirect(o) ==
+  MoreLenient(o) /\ \E k \in DOMAIN o.toks : RedirOp(o.toks[k]) /\ k + 1 <= Len(o.toks) /\
+      LET n == NextNonBlank(o.toks, k + 1)
+          b == PrevNonBlank(o.toks, k) IN
+      n # 0 /\ ListWord(o.toks[n]) /\ b # 0 /\ CompoundEnd(o.toks[b])
+
 \* C12-7: inside `( … )`, `$( … )` and backquotes a `#` that continues a word right after an expansion
 \* (`(echo $x#z)`) starts a comment and swallows the rest of the line; bash and dash read one word.
 Dev_HashAfterExpansionInSubshell(o) ==
@@ -203,6 +215,7 @@ Names(o) ==
   (IF Dev_AnonymousFunction(o) THEN {"Dev_AnonymousFunction"} ELSE {}) \cup
   (IF Dev_ForVariableNotAName(o) THEN {"Dev_ForVariableNotAName"} ELSE {}) \cup
   (IF Dev_FunctionBodyNotCompound(o) THEN {"Dev_FunctionBodyNotCompound"} ELSE {}) \cup
+  (IF Dev_ReservedAfterRedirect(o) THEN {"Dev_ReservedAfterRedirect"} ELSE {}) \cup
   (IF LazyShell_OpenHeredocBody(o) THEN {"LazyShell_OpenHeredocBody"} ELSE {}) \cup
   (IF IntentionalDiff_UnclosedHeredoc(o) THEN {"IntentionalDiff_UnclosedHeredoc"} ELSE {}) \cup
   (IF IntentionalDiff_LoneBang(o) THEN {"IntentionalDiff_LoneBang"} ELSE {}) \cup
@@ -218,7 +231,7 @@ Names(o) ==
   (IF LazyShell_ParamExp(o) THEN {"LazyShell_ParamExp"} ELSE {})
 
 DevNames == {"Dev_InAsCommand", "Dev_ElseAsCommand", "Dev_AnonymousFunction", "Dev_ForVariableNotAName", "Dev_FunctionBodyNotCompound",
-             "Dev_BangParenPosix", "Dev_FdTakenAsRedirectTarget", "Dev_HashAfterExpansionInSubshell"}
+             "Dev_BangParenPosix", "Dev_FdTakenAsRedirectTarget", "Dev_HashAfterExpansionInSubshell", "Dev_ReservedAfterRedirect"}
 Agree(o) == (o.impl = "ok") = (o.shell = "ok")
 
 \* ---------------------------------------------------------------- the walk over the observations
